@@ -36,6 +36,10 @@ pub struct TreeSpec {
     pub nodes: Vec<Node>,
     /// Walk roots, relative to the base directory.
     pub roots: Vec<String>,
+    /// The tree and the target of the cross-device link live on two freshly mounted tmpfs
+    /// instances, so that the link's target directory has the same inode NUMBER as an
+    /// ancestor of the link (on another device): not a loop. Needs the right to mount.
+    pub collide: bool,
 }
 
 #[derive(Clone, Debug)]
@@ -90,6 +94,7 @@ impl TreeSpec {
     pub fn to_json(&self) -> Value {
         json!({
             "roots": self.roots,
+            "xdev_inode_collision": self.collide,
             "nodes": self.nodes.iter().map(|n| match &n.kind {
                 NodeKind::Dir => json!([n.path, "dir"]),
                 NodeKind::File(s) => json!([n.path, "file", s]),
@@ -115,7 +120,7 @@ impl TreeSpec {
             };
             nodes.push(Node { path, kind });
         }
-        TreeSpec { nodes, roots }
+        TreeSpec { nodes, roots, collide: v["xdev_inode_collision"].as_bool().unwrap_or(false) }
     }
 }
 
@@ -261,23 +266,68 @@ pub fn gen_tree(rng: &mut Rng, mode: TreeMode) -> TreeSpec {
             }
         }
     }
-    TreeSpec { nodes, roots }
+    let collide = mode == TreeMode::Rich && nodes.iter().any(|n| n.kind == NodeKind::XdevLink) && rng.chance(1, 3);
+    TreeSpec { nodes, roots, collide }
 }
 
 /// Directory on the disk file system (a second device), removed on drop.
-pub struct XdevGuard(Option<PathBuf>);
+pub struct XdevGuard {
+    dir: Option<PathBuf>,
+    mounts: Vec<PathBuf>,
+}
 
 impl Drop for XdevGuard {
     fn drop(&mut self) {
-        if let Some(p) = &self.0 {
+        for m in self.mounts.iter().rev() {
+            umount_lazy(m);
+        }
+        if let Some(p) = &self.dir {
             let _ = std::fs::remove_dir_all(p);
         }
     }
 }
 
+fn cpath(p: &Path) -> std::ffi::CString {
+    std::ffi::CString::new(p.as_os_str().as_encoded_bytes()).unwrap()
+}
+
+pub fn umount_lazy(p: &Path) {
+    unsafe { libc::umount2(cpath(p).as_ptr(), libc::MNT_DETACH) };
+}
+
+fn mount_tmpfs(p: &Path) -> bool {
+    let t = std::ffi::CString::new("tmpfs").unwrap();
+    unsafe { libc::mount(t.as_ptr(), cpath(p).as_ptr(), t.as_ptr(), 0, std::ptr::null()) == 0 }
+}
+
+/// Whether this process may mount file systems (checked once).
+pub fn can_mount() -> bool {
+    static CAN: std::sync::OnceLock<bool> = std::sync::OnceLock::new();
+    *CAN.get_or_init(|| {
+        let d = PathBuf::from(format!("/dev/shm/verif-mountprobe-{}", std::process::id()));
+        let _ = std::fs::create_dir_all(&d);
+        let ok = mount_tmpfs(&d);
+        if ok {
+            umount_lazy(&d);
+        }
+        let _ = std::fs::remove_dir(&d);
+        ok
+    })
+}
+
+thread_local!(
+    /// Set by `materialise` when the inode-number collision was really produced.
+    pub static COLLISION_ACHIEVED: std::cell::Cell<bool> = const { std::cell::Cell::new(false) }
+);
+
 pub fn materialise(base: &Path, tree: &TreeSpec) -> XdevGuard {
     std::fs::create_dir_all(base).unwrap();
-    let mut guard = XdevGuard(None);
+    let mut guard = XdevGuard { dir: None, mounts: vec![] };
+    COLLISION_ACHIEVED.with(|c| c.set(false));
+    let collide = tree.collide && can_mount();
+    if collide && mount_tmpfs(base) {
+        guard.mounts.push(base.to_path_buf());
+    }
     for n in &tree.nodes {
         let p = base.join(&n.path);
         match &n.kind {
@@ -292,6 +342,39 @@ pub fn materialise(base: &Path, tree: &TreeSpec) -> XdevGuard {
         match &n.kind {
             NodeKind::Link(t) => std::os::unix::fs::symlink(base.join(t), &p).unwrap(),
             NodeKind::Dangling => std::os::unix::fs::symlink(base.join("nowhere/at/all"), &p).unwrap(),
+            NodeKind::XdevLink if collide && !guard.mounts.is_empty() => {
+                // A second fresh tmpfs: both instances number their inodes 2, 3, 4, ... in
+                // creation order, so some directory here has the number of the link's
+                // top-most ancestor over there.
+                use std::os::unix::fs::MetadataExt;
+                let xm = base.parent().unwrap().join("xm");
+                umount_lazy(&xm);
+                let _ = std::fs::remove_dir_all(&xm);
+                std::fs::create_dir_all(&xm).unwrap();
+                let top = base.join(n.path.split('/').next().unwrap());
+                let want = std::fs::metadata(&top).map(|m| m.ino()).unwrap_or(0);
+                let mut target = xm.join("c0");
+                if mount_tmpfs(&xm) {
+                    guard.mounts.push(xm.clone());
+                    for i in 0..4096 {
+                        let c = xm.join(format!("c{i}"));
+                        std::fs::create_dir(&c).unwrap();
+                        let ino = std::fs::metadata(&c).map(|m| m.ino()).unwrap_or(0);
+                        if ino == want {
+                            target = c;
+                            COLLISION_ACHIEVED.with(|c| c.set(true));
+                            break;
+                        }
+                        if ino > want {
+                            break;
+                        }
+                    }
+                }
+                std::fs::create_dir_all(target.join("xd")).unwrap();
+                std::fs::write(target.join("xf0"), b"x").unwrap();
+                std::fs::write(target.join("xd/xf1"), b"xx").unwrap();
+                std::os::unix::fs::symlink(&target, &p).unwrap();
+            }
             NodeKind::XdevLink => {
                 // The scratch tree lives on tmpfs; /var/tmp is on the disk.
                 let x = PathBuf::from(format!("/var/tmp/verif-xdev-{}-{}", std::process::id(), simcore::fnv(base.as_os_str().as_encoded_bytes()) % 100000));
@@ -300,7 +383,7 @@ pub fn materialise(base: &Path, tree: &TreeSpec) -> XdevGuard {
                 std::fs::write(x.join("xf0"), b"x").unwrap();
                 std::fs::write(x.join("xd/xf1"), b"xx").unwrap();
                 std::os::unix::fs::symlink(&x, &p).unwrap();
-                guard.0 = Some(x);
+                guard.dir = Some(x);
             }
             _ => {}
         }
@@ -352,6 +435,11 @@ pub fn allowed_multiplicity(roots: &[String], p: &str) -> usize {
 /// Independent recursive listing with the same depth / size / link / device /
 /// entry-filter settings, written against std::fs only. Not used when ignore
 /// or hidden rules are active.
+thread_local!(
+    /// Relative path of a file whose size the walkers could not learn (injected stat fault).
+    pub static SIZE_UNKNOWN: std::cell::RefCell<Option<String>> = Default::default()
+);
+
 pub fn model_listing(base: &Path, tree: &TreeSpec, cfg: &WalkCfg) -> Vec<Seen> {
     let mut out = vec![];
     for r in &tree.roots {
@@ -405,7 +493,8 @@ fn list(base: &Path, p: &Path, depth: usize, cfg: &WalkCfg, root_dev: Option<u64
             }
         }
         if let Some(max) = cfg.max_filesize {
-            if !md.is_dir() && md.len() > max {
+            let unknown = SIZE_UNKNOWN.with(|c| c.borrow().as_deref() == Some(relp.as_str()));
+            if !md.is_dir() && md.len() > max && !unknown {
                 return;
             }
         }
